@@ -253,6 +253,10 @@ func (x *bvCtx) rootKey(root ssa.Value) string {
 		return "param:" + r.Name()
 	case *ssa.Phi:
 		return "cursor:" + r.Comment
+	case *ssa.Slice:
+		if isOffsetCursor(r) {
+			return "cursor:" + r.Low.(*ssa.Phi).Comment
+		}
 	}
 	return "v:" + root.Name()
 }
